@@ -124,3 +124,61 @@ class IsNamedTupleClassImpl(Contract):
 
     def frame(self, cx, ret):
         return []
+
+
+@contract
+class NamedTupleGetFields(Contract):
+    """NamedTupleGetFields(object): with C = object if it is a type else type(object): TypeError exactly when C is not a
+    namedtuple class, otherwise getattr(C, '_fields').  IsNamedTupleClass (PyType_Check, then the cached Impl answer) is used
+    through its summary: for a type object it returns NT_impl."""
+    name = 'NamedTupleGetFields'
+    this_is_spec = False
+    props = ('C18',)
+
+    def setup(self, eng, st, fn):
+        cx = super().setup(eng, st, fn)
+        st.facts.append(T.names_distinct())
+        t = z3.Const('t!ty', Ref)
+        # the type of an object is a type object (PyType_Check holds for it)
+        st.facts.append(z3.ForAll([t], T.nt_is_type(M.py_type(t)), patterns=[M.py_type(t)]))
+        # an exact tuple passes PyTuple_Check
+        st.facts.append(z3.ForAll([t], z3.Implies(T.nt_exact_tuple(t), M.py_is_tuple(t)), patterns=[T.nt_exact_tuple(t)]))
+        return cx
+
+    def call_hook(self, eng, st, name, args_n, n):
+        if name == 'PyType_Check':
+            (s1, o), = eng.ev(args_n[0], st)
+            r = o.ref if isinstance(o, PyObj) else o
+            return [(s1, z3.If(T.nt_is_type(r), z3.IntVal(1), z3.IntVal(0)))]
+        if name == 'IsNamedTupleClass':
+            (s1, o), = eng.ev(args_n[0], st)
+            r = o.ref if isinstance(o, PyObj) else o
+            eng.may_call_python(s1, 'class predicate (getattr on the class)', n.get('line'))
+            return [(s1, z3.And(T.nt_is_type(r), T.NT_impl(r)))]
+        if name == 'getattr':
+            (s1, o), = eng.ev(args_n[0], st)
+            (s2, nm), = eng.ev(args_n[1], s1)
+            if isinstance(nm, Opaque) and nm.tag == 'pyid:_fields':
+                r = o.ref if isinstance(o, PyObj) else o
+                eng.may_call_python(s2, 'getattr', n.get('line'))
+                s_exc = s2.clone()
+                eng.throw(s_exc, 'pybind11::error_already_set', n.get('line'), 'from getattr')
+                return [(s2, PyObj(T.nt_attr(r, T.nt_name('_fields'))))]
+        return None
+
+    def C(self, cx):
+        o = cx.old('object').ref
+        return z3.If(T.nt_is_type(o), o, M.py_type(o))
+
+    def raises(self, cx):
+        return {'pybind11::type_error': z3.Not(T.NT(self.C(cx))), 'pybind11::error_already_set': None}
+
+    def post(self, cx, ret):
+        return [('returns-the-fields-of-the-class', ret.ref == T.nt_attr(self.C(cx), T.nt_name('_fields'))),
+                ('only-for-namedtuple-classes', T.NT(self.C(cx)))]
+
+    def frame(self, cx, ret):
+        return []
+
+    def frame_exc(self, cx):
+        return []
